@@ -38,6 +38,10 @@ def run(ctx, shared=True):
         reuse(ctx, lambda c: _c14.run(c, shared=False), ("C14.config", "C14.flow"), "C12file", "replace-don't-merge rule shared with C14: the file an interrupted run leaves must hold the configuration and "
               "the proposal of this run, loadable by resume_from_file(); an entry-by-entry overwrite keeps flattened keys of an earlier configuration that the loader folds back in, and a write "
               "that is skipped or raises when the entry exists leaves the earlier one", only=lambda f: f.key.endswith("| delete") or "does not depend on what the file already contains" in f.detail or "is only written when" in f.detail or "is not written before" in f.detail)
+    if shared:
+        from . import c19 as _c19
+        reuse(ctx, _c19.run, ("C19.ac",), "C12ctx", "context rule shared with C19: checkpoint defaults that survive the with-block (an exception in the body skips the restore) make a later "
+              "sample_posterior() call, which asked for no checkpointing, rewrite the configuration, the flow and the checkpoint of the interrupted run's file")
     smc = repo.cls(SMC)
     base = repo.cls("aspire.samplers.base:Sampler")
     sample = smc.methods["sample"]
@@ -615,4 +619,8 @@ ANCHORS = [
     'aspire.samplers.base:Sampler.default_file_checkpoint_callback',
     'aspire.samplers.base:Sampler.save_checkpoint_to_hdf',
     'aspire.samplers.base:Sampler.load_checkpoint_from_file',
+]
+
+MUTANTS += [
+    M("auto_checkpoint restores its defaults only on a clean exit", _A, "try:\n            yield self\n        finally:\n            if prev is None:", "yield self\n        if True:\n            if prev is None:", "C12ctx.ac"),
 ]
